@@ -7,6 +7,10 @@ from sxl.ints import SInt
 
 def _inc(msg):
     from sxl.explore import Inconclusive
+    import os
+    if os.environ.get("VF_TRACE_INC"):
+        import traceback
+        traceback.print_stack()
     raise Inconclusive("SDyad: " + msg)
 
 
@@ -26,7 +30,13 @@ class SDyad:
         if n.__class__ is SInt:
             lo, hi = n.interval()
             if max(abs(lo), abs(hi)) >= (1 << 53):
-                _inc("value may need more than 53 significant bits (binary64 arithmetic would round)")
+                # the interval bound is syntactic; ask the solver whether such a magnitude is feasible on this path (a decision: the
+                # feasible side is inconclusive, the other side continues with the exactness condition in the path condition)
+                from sxl import runtime
+                from sxl.bits import bor
+                big = bor(runtime.as_cond(n >= (1 << 53)), runtime.as_cond(n <= -(1 << 53)))
+                if runtime.truth(big):
+                    _inc("value may need more than 53 significant bits (binary64 arithmetic would round)")
         self.n, self.e = n, e
 
     # -------- helpers
@@ -73,11 +83,19 @@ class SDyad:
             return NotImplemented
         return SDyad(r[0] - r[1], r[2])
 
+    @staticmethod
+    def _raw(n, e):
+        """a value whose magnitude is that of an existing SDyad (negation, abs, copysign are exact): no new 53-bit check — the interval
+        bound of a negated / merged numerator is one bit coarser than the operand's"""
+        r = SDyad.__new__(SDyad)
+        r.n, r.e = n, e
+        return r
+
     def __neg__(self):
-        return SDyad(-self.n, self.e)
+        return SDyad._raw(-self.n, self.e)
 
     def __abs__(self):
-        return SDyad(abs(self.n), self.e)
+        return SDyad._raw(abs(self.n), self.e)
 
     def __mul__(self, o):
         if isinstance(o, float) and o != int(o):
@@ -177,4 +195,6 @@ def copysign(x, s):
             _inc("copysign of %r" % type(x).__name__)
     sneg = (s.n < 0) if isinstance(s, SDyad) else (s < 0)
     a = abs(x)
-    return SDyad(_mux(sneg, -a.n, a.n), a.e)
+    # copysign never changes the magnitude, so it is exact whenever its operand is: no new 53-bit check (the interval of the merged
+    # numerator is one bit coarser than that of |x|)
+    return SDyad._raw(_mux(sneg, -a.n, a.n), a.e)
